@@ -70,6 +70,10 @@ CHECKS = {
    text="Wire.tla states the closed schemas of the naive / v0.1 statements and Link v0.2 / SLSA v0.1 / v0.2 predicates; TLC proves them pairwise disjoint over every subset of the field universes (so recognition yields at most one version) and enumerates every field subset x materials kind x timestamp form and declared type x contained format. Each document is parsed with the version-detecting parsers: accepted documents must be recognised as the schema's version (judge_from_value agreeing), round-trip through canonical bytes and JSON, and type / predicate mismatches must be rejected; statements built from link metadata must carry name, artifacts, command, byproducts and environment unchanged.",
    note='Trusted: TLC, serde_json (reader / writer / Value), the harness document builders. Descriptor-based: each optional part / variant is a descriptor dimension; string content by class; field universes are the top-level members.',
    tech='TLA+ spec Wire.tla (schemas, disjointness theorem) checked with TLC; spec->impl replay of every field-subset document'),
+ "C18": dict(cat="model_checking", ref="§4 C18, §3.5",
+   text="Record.tla models the file-system graph (files, nested / empty directories, up to two symbolic links to files, directories, each other or an ancestor), the directory walk (real directories always entered, links to directories followed unless on the descent stack), strip-prefix selection, collision detection and the materials / command / products sequencing of a run. TLC enumerates graphs x argument lists x strip lists x commands and proves Exact, ErrIffCollision and EveryFileOnce on the walk machine; every graph is materialised in a temporary directory (four name classes, absolute and relative links, non-normalised arguments, sha256 / sha512 / both, empty to 1 MiB files) and record_artifacts / in_toto_run must return exactly the specification's entries with independently recomputed digests, byproducts equal to the command's streams and status.",
+   note="Trusted: TLC, walkdir / the OS for link resolution, ring for the independent digests. Bounds: the fixed skeleton of 4 files, 3 directories, 2 links; dangling links and non-existent arguments are outside the quantifier; one file reachable by two paths with the same key is left open (error or one entry).",
+   tech="TLA+ spec Record.tla (walk machine) model-checked with TLC; spec->impl replay of every graph on a real directory tree"),
  "C03": dict(cat="model_checking", ref="§4 C03, §3.3",
    text="Rules.tla transcribes the in-toto specification's artifact-rule algorithm (functional form and a state machine with one Apply step per rule; TLC checks that both agree, that the queue only shrinks and that a rule only consumes artifacts its pattern / source prefix matches). TLC enumerates rule lists x item link states x referenced-step states; every scenario is run through the real rule engine and the verdict must equal the specification's; seeded random scenarios beyond the bounds (up to 4+4 rules, 6 paths, nested prefixes) are validated step by step (consumed set and remaining queue after every rule, hook in rulelib.rs) against Trace_Rules.tla.",
    note="Trusted: TLC, glob::Pattern (default options) as fnmatch, the harness builders. Inputs restricted to C03's own quantifier: normalised relative paths, portable glob syntax; '[' only in DISALLOW. Bounds: 3 paths, 57-rule alphabet, rule lists <= 2 in TLC (<= 4+4 in traces).",
